@@ -3,6 +3,27 @@
 import json, glob, os, re
 V = os.path.dirname(os.path.dirname(os.path.abspath(__file__)))
 DESC = {
+ "m5-C01": ("window checked on 'some member of the Signature list', signature on another", "a decoy member whose window covers t next to the genuine member whose window does not", "MISSED at the first evaluation; decoy-member scenarios added (K17)"),
+ "m5-C02": ("same slip as m3-C01 (leading empty values dropped), delivered for C02", "repeated header whose first value is empty", "caught at the first evaluation"),
+ "m5-C03": ("stride of the variant slot computed with = instead of *=", "b1 variant set over three or more axes", "MISSED at the first evaluation; complete / incomplete / overlapping sets over 1-3 axes added to the random bundles (K17)"),
+ "m5-C04": ("index builder ignores the error of EncodeTextString", "exchange URL that is not valid UTF-8", "MISSED at the first evaluation; such a URL added, `Refused` extended (K17)"),
+ "m5-C05": (":status parsed with base 0 (leading zero = octal)", "status text 010..099 in the file", "caught at the first evaluation (byte-level fuzz)"),
+ "m5-C06": ("7-day cap via AddDate(0,0,7) in the process's local zone", "process time zone with daylight saving, signature dated next to a transition", "MISSED at the first evaluation; the verifier families now also run under TZ=America/New_York and TZ=Europe/Berlin on such dates (K17)"),
+ "m5-C07": ("'already signed' also decided by content (magic at offset 2)", "file whose bytes look like an integrity block but whose trailing length covers the whole file", "MISSED at the first evaluation; file kind `exactmagic` added (K17)"),
+ "m5-C08": ("verify path rebuilds the message from url.Parse(validity-url).String()", "validity-url spelled as another implementation may (upper-case scheme, empty fragment)", "MISSED by C08 at the first evaluation (C01 caught it); opaque validity URLs and verdicts added to C08 (K17)"),
+ "m5-C09": ("window compared in whole seconds", "instant with a sub-second part just past expires", "caught at the first evaluation"),
+ "m5-C10": ("error message slices an attacker-supplied digest at 16 hex digits", "validly signed subset whose header-sha256 is shorter than 8 bytes", "MISSED at the first evaluation; validly signed unusual subsets added to the totality harness (K17)"),
+ "m5-C11": ("previous key copied into a 512-byte array", "two equal keys longer than 512 encoded bytes", "MISSED at the first evaluation; keys of 255..5000 bytes and more duplicates (K17)"),
+ "m5-C12": ("bytes.Buffer fast path bounded by cap", "truncated string read from a *bytes.Buffer over a sub-slice", "MISSED by C12 at the first evaluation (C05 caught it through bundle.Read); source kinds added to the reader-side family (K17)"),
+ "m5-C13": ("later map keys compared with the first key", "map of three or more pairs with the 2nd / 3rd swapped or equal", "caught at the first evaluation"),
+ "m5-C14": ("one package-level hasher shared by all decoders", "two decoders of different streams running at the same time", "MISSED at the first evaluation; family (D) parallel-cold added and wired into the decoder / parser / verifier checks (K17)"),
+ "m5-C15": ("limit 0 means 'no limit'", "caller's limit 0", "caught at the first evaluation"),
+ "m5-C16": ("parameters sorted by their rendered text", "one key a prefix of another, continued by '-' or a digit", "caught at the first evaluation"),
+ "m5-C17": ("same slip as m3-C12 (single Read), delivered for C17", "source that returns EOF with the last byte / (0, nil)", "caught at the first evaluation (reader-side schedules)"),
+ "m5-C18": ("unsynchronised package-level cache of parsed Variants values", "concurrent WriteTo of b1 bundles with a Variants value not seen before in the process", "MISSED at the first evaluation (reference bytes were computed sequentially first, which warmed the cache); family (D) runs fresh objects in parallel before any sequential call (K17)"),
+ "m5-C19": ("error wrapping dereferences the optional primary URL", "b2 bundle without primary URL and a write fault inside a section", "MISSED at the first evaluation; bare and empty b2 bundles added to the fault runs (K17)"),
+ "m5-C20": ("CanSignForURL verifies Host (with port)", "base URL with an explicit port", "MISSED at the first evaluation; base URL `port` added to Cli.tla (K17)"),
+
  "m4-C01": ("header-map readers test 'no byte A..Z' instead of key == ToLower(key)", "a header NAME in the file respelled with U+0130 / U+212A (which Unicode lower-casing folds onto i / k), lengths fixed up", "header-name respelling added on reading the report (K16)"),
  "m4-C02": ("MiEncodePayload takes its buffer from a sync.Pool and returns it while e.Payload still aliases it", "a second exchange prepared before the first is written", "exchanges are now prepared in batches before any is signed (K16)"),
  "m4-C03": ("b2 reader demands a host in the primary URL", "primary URL that is absolute without authority (urn:, file:///)", "primary-URL shapes added (K16)"),
